@@ -73,7 +73,9 @@ theorem nullIndex_bits {α : Type} (nonzero : α → Bool) (vs : List α) :
 
 /-- Path equivalence as a theorem about two Lean functions: for every Go type built from the
 wrappers of `TNode` (required leaf, `optional` non-pointer leaf with its bitmap scan, struct,
-pointer, slice, `list`, `optional`+`list`, nested in any way) and every batch of rows — conforming
+pointer, slice, `list`, `optional`+`list`, map, `optional` map with the bitmap scan over nil-ness,
+nested in any way; the leaf kinds with value conversions — narrow ints, time.Time, decimal, uuid
+text — are leaves of the model, their payload being whatever the conversion yields) and every batch of rows — conforming
 or not —, the MIRROR of the typed write path (`typedWrite`: the `writeRowsFunc` closures composed
 over the level bookkeeping of the leaf column buffers, one call for the whole batch) appends to
 every leaf column exactly the triples `shredN` (the reflection path, theorem
@@ -92,5 +94,39 @@ example :
       .some (.struct [.list [.struct [.struct [.list [.struct [.prim 4], .struct [.prim 5]]]]]]), .prim 9]
     wfN (erase T) = true ∧ confN (erase T) row = true := by
   simp [erase, eraseF, listNode, wfN, wfF, leavesN, leavesF, confN, confF]
+
+/-- a conforming row of `struct { M map[K]V optional; L []struct{ N map[K]*V } }` -/
+example :
+    let T : TNode := .struct (.cons (.optMap .leaf .leaf) (.cons (.slice (.struct (.cons (.map .leaf (.ptr .leaf)) .nil))) .nil))
+    let row : Val := .struct [.some (.struct [.list [.struct [.prim 1, .prim 2]]]),
+      .list [.struct [.struct [.list [.struct [.prim 3, .none], .struct [.prim 4, .some (.prim 5)]]]], .struct [.struct [.list []]]]]
+    wfN (erase T) = true ∧ confN (erase T) row = true := by
+  simp [erase, eraseF, mapNode, pairNode, wfN, wfF, leavesN, leavesF, confN, confF]
+
+/-- The bitmap branch of `writeRowsFuncOfOptional` keeps any writer sound: if the wrapped
+`writeRowsFunc` writes `shred` of its node (`Sound`) and writes the absent node for rows holding the
+zero value at the parent's definition level, then the optional wrapper — null index, run scan, one
+call per run — writes `shred` of the optional node, for every batch. (Instances: the optional leaf
+of every kind, the optional map.) -/
+theorem typed_optional_wrapper_sound {n : Node} {f : Nat → WriteRows} (h : Sound n f)
+    (hz : ∀ dm r k (vs : List Val), vs ≠ [] → (∀ v ∈ vs, isSome v = false) →
+      f (dm + 1) r k dm (vs.map unopt) = joinSegs (leavesN n) (vs.map fun _ => absentN n r dm)) :
+    Sound (.opt n) (fun dm => wrOptional (leavesN n) (f (dm + 1))) :=
+  wrOptional_sound h hz
+
+/-- the hypotheses are satisfiable: the leaf writer -/
+example : Sound .leaf wrLeaf := wrLeaf_sound
+
+/-- An `optional` map distinguishes the nil map (null: the placeholder entry of key and value sits
+at the parent's definition level) from the empty non-nil map (present, no entries: one level up)
+and from a populated map, on the typed path exactly as `shred` does — the three rows below give
+definition levels 0, 1, 2 in the key and in the value column. -/
+theorem typed_optional_map_nil_vs_empty :
+    typedWrite (.struct (.cons (.optMap .leaf .leaf) .nil))
+      [.struct [.none], .struct [.some (.struct [.list []])],
+       .struct [.some (.struct [.list [.struct [.prim 7, .prim 8]]])]] =
+    [[⟨none, 0, 0⟩, ⟨none, 0, 1⟩, ⟨some 7, 0, 2⟩], [⟨none, 0, 0⟩, ⟨none, 0, 1⟩, ⟨some 8, 0, 2⟩]] := by
+  rw [typedWrite_eq_shred]
+  decide
 
 end PqModel.Props.C03
